@@ -167,7 +167,11 @@ func (rt *scenRT) body(t *f1t.T) {
 		rt.run(t)
 		return
 	}
-	behave(t, plan.Behav)
+	if plan.InTimeStage {
+		t.Time("stage", func() { behave(t, plan.Behav) })
+	} else {
+		behave(t, plan.Behav)
+	}
 	if plan.After > 0 {
 		time.Sleep(time.Duration(plan.After))
 	}
